@@ -131,7 +131,7 @@ func sectionKeys(top *ref.Obj, name string) []string {
 // C15 – order of independent top-level blocks.
 func C15(c *fw.Ctx) {
 	limit := c.Pick(6, 120)
-	c.Rule(fmt.Sprintf("inputs: accepted single-file LF corpus documents and rendered models without a root-level PASTE or an implicit-context MACRO, and documents whose blocks are MACRO definitions that paste each other (all acyclic graphs on 3 macros, seeded ones on 4); blocks = root "+
+	c.Rule(fmt.Sprintf("inputs: accepted single-file LF corpus documents and rendered models without a root-level PASTE or an implicit-context MACRO, 72 documents with three resources whose paths share parameterised prefixes and whose Path directives describe each {parameter} once, and documents whose blocks are MACRO definitions that paste each other (all acyclic graphs on 3 macros, seeded ones on 4); blocks = root "+
 		"directives with their subtrees (reference automaton over the public lexeme stream), JSIGHT pinned first; all permutations for <= 5 blocks (at most "+
 		"%d per document), seeded permutations otherwise; oracle: the permuted document is accepted, every section holds the same entries with the "+
 		"same content (interaction lists of a tag as sets), and the order of userTypes, userEnums, servers, explicit tags, interactions and of the "+
@@ -199,6 +199,45 @@ func C15(c *fw.Ctx) {
 				}
 			}
 			addGraph(4, edges)
+		}
+		// resources whose paths share parameterised prefixes, each {parameter} described by the Path directive of one of them (or of
+		// none): which block comes first decides who registers the parameter and who only refers to it
+		paths := []string{"/s/{a}", "/s/{a}/i/{b}", "/s/{a}/i/{b}/k/{c}"}
+		schemaOf := [][]string{
+			{"\"a\": 1 // {or: [\"integer\", \"string\"]}", "\"b\": \"x\" // {enum: @pe}", "\"c\": 5 // {type: \"@pt\"}"},
+			{"\"a\": \"v\" // {or: [{type: \"string\", maxLength: 9}, {type: \"integer\", min: 0}]}", "\"b\": 2.5 // {precision: 1}", "\"c\": \"2021-01-02\" // {type: \"date\"}"},
+			{"\"a\": 1 // {min: 1}", "\"b\": @pt | @ps", "\"c\": \"x@y.z\" // {type: \"email\", optional: true}"},
+		}
+		np := 0
+		for da := 0; da <= 3; da++ { // the block that describes {a} (3 = none)
+			for db := 1; db <= 3; db++ {
+				for dc := 2; dc <= 3; dc++ {
+					for v, sch := range schemaOf {
+						var sb strings.Builder
+						sb.WriteString("JSIGHT 0.3\n")
+						for bi, p := range paths {
+							var props []string
+							for pi, owner := range []int{da, db, dc} {
+								if owner == bi {
+									props = append(props, "      "+sch[pi])
+								}
+							}
+							sb.WriteString("URL " + p + "\n")
+							if len(props) > 0 {
+								sb.WriteString("  Path\n    {\n" + strings.Join(props, ",\n") + "\n    }\n")
+							}
+							sb.WriteString("  GET\n    200 any\n")
+							if bi == 1 {
+								sb.WriteString("  DELETE\n    204 empty\n")
+							}
+						}
+						sb.WriteString("TYPE @pt\n  12\nTYPE @ps\n  \"s\"\nENUM @pe\n  [\"x\", \"y\"]\n")
+						np++
+						_ = v
+						add(fmt.Sprintf("shared-prefix-%d", np), []byte(sb.String()))
+					}
+				}
+			}
 		}
 		r := gen.Rng(c.Seed, c.ID, "models")
 		for i := 0; i < c.Pick(300, 6000); i++ {
@@ -325,11 +364,17 @@ func C15(c *fw.Ctx) {
 			return
 		}
 		js := findOut(res, "json")
-		if js == nil || js.Bytes == nil {
+		if sig, what := outProblem(js); sig != "" {
+			// the original was serialised (its catalog is p.base): "a catalog with the same entries" needs a catalog
+			c.Violate("permuted-not-serialisable:"+sig, fmt.Sprintf("permutation %v of the blocks of %s is accepted but has no catalog: %s", p.perm, d.name, what), rp)
+			return
+		}
+		if js.Bytes == nil {
 			return
 		}
 		nv, err := ref.ParseJSON(js.Bytes)
 		if err != nil {
+			c.Violate("permuted-not-serialisable:not-json", fmt.Sprintf("permutation %v of the blocks of %s: ToJson is not JSON: %v", p.perm, d.name, err), rp)
 			return
 		}
 		nt, bt := nv.(*ref.Obj), p.base
